@@ -94,7 +94,8 @@ func (p *Publish) Unpack(r io.Reader) error {
 	if err != nil {
 		return err
 	}
-	if !ValidTopicName(true, p.TopicName) {
+	// A zero length topic name is only allowed in V5 together with a topic alias (checked below).
+	if len(p.TopicName) != 0 && !ValidTopicName(true, p.TopicName) {
 		return codes.ErrMalformed
 	}
 	if p.Qos > Qos0 {
@@ -108,6 +109,12 @@ func (p *Publish) Unpack(r io.Reader) error {
 		if err := p.Properties.Unpack(bufr, PUBLISH); err != nil {
 			return err
 		}
+		// It is a Protocol Error if the Topic Name is zero length and there is no Topic Alias.
+		if len(p.TopicName) == 0 && p.Properties.TopicAlias == nil {
+			return codes.ErrProtocol
+		}
+	} else if len(p.TopicName) == 0 {
+		return codes.ErrMalformed
 	}
 	p.Payload = bufr.Next(bufr.Len())
 	return nil
